@@ -186,9 +186,9 @@ def gen_table(g: G, name: str, force_cols: Optional[List[str]] = None):
             elif t == "int":
                 row.append(g.pick(KEY_INT_VALS if n == "k" else INT_VALS))
             elif t == "float":
-                row.append(None if nullable and g.boolean(0.25) else g.pick(FLOAT_VALS))
+                row.append(None if nullable and g.boolean(cfg.get("null_rate", 0.25)) else g.pick(FLOAT_VALS))
             elif t == "str":
-                row.append(None if nullable and g.boolean(0.25) else g.pick(KEY_STR_VALS if n == "g" else STR_VALS))
+                row.append(None if nullable and g.boolean(cfg.get("null_rate", 0.25)) else g.pick(KEY_STR_VALS if n == "g" else STR_VALS))
             else:
                 row.append(g.boolean())
         rows.append(row)
@@ -262,7 +262,7 @@ def gen_num(g: G, sch: Sch, t: str, depth: int, must_col=False):
         a = gen_num(g, sch, g.pick(["int", "float"]), depth - 1, must_col=True)
         if a is None:
             return None
-        if a[0] == "call" and g.boolean(0.5) and sch.cols and "float_divide" not in g.closed:
+        if a[0] == "call" and g.boolean(g.cfg.get("float_divide_prob", 0.5)) and sch.cols and "float_divide" not in g.closed:
             # the explicit float division operator with a compound numerator (dialects format it on their own)
             fa = a if S.expr_type(a, sch)[0] == "float" else ["call", "*", [a, ["lit", 1.0]]]
             return ["call", "%/%", [fa, ["lit", g.pick(DIVISORS)]]]
